@@ -101,6 +101,10 @@ type W struct {
 	// OnFormatAt: 0 no custom formatter; 1 registered before all routes; 2 after the first route
 	// (routes registered earlier keep the default envelope)
 	OnFormatAt int `json:"on_format_at,omitempty"`
+	// Flood > 0: request 0 is held inside its first middleware (before $next) while one more client sends Flood
+	// requests to a trivial route, one after another: a long request among many short ones. Whatever the server
+	// keeps per in-flight request must survive any number of other requests.
+	Flood int `json:"flood,omitempty"`
 	// Collide: "<hash>/<query|uri>": pairs of requests (0,1), (2,3), … carry z parameters chosen by the collision adversary
 	Collide string `json:"collide,omitempty"`
 }
@@ -231,6 +235,22 @@ func gen(r *verifsim.Rng, tier string) (any, hx.Sched) {
 			}
 		}
 	}
+	if !depthRun && w.Collide == "" && r.Intn(150) == 0 {
+		w.Flood = verifsim.Pick(r, []int{300, 600, 1100, 1100, 2100})
+		w.Annot = false
+		if w.MW == 0 {
+			w.MW = 1
+		}
+		w.OnFormatAt = verifsim.Pick(r, []int{1, 1, 0})
+		if r.Intn(3) != 0 {
+			w.Handlers[w.Reqs[0].H].File = 0
+			w.Handlers[w.Reqs[0].H].Resp = verifsim.Pick(r, []string{"success", "error", "format"})
+		}
+		if len(w.Reqs) > 3 {
+			w.Reqs = w.Reqs[:3]
+			nr = 3
+		}
+	}
 	// faults: at most one aborted and one write-failed request per run, in a subset of runs
 	if depthRun {
 		// no other faults in depth runs
@@ -245,6 +265,10 @@ func gen(r *verifsim.Rng, tier string) (any, hx.Sched) {
 	s.MeanGap = verifsim.Pick(r, []int64{30, 100, 300, 1000, 3000, 30000})
 	s.FocusWeight = verifsim.Pick(r, []int32{1, 10, 100})
 	s.MaxSteps = 2000000
+	if w.Flood > 0 {
+		s.MaxSteps = 400000000
+		s.MeanGap = verifsim.Pick(r, []int64{3000, 30000, 300000})
+	}
 	// no map-order adversary here (that is C20's subject): the solo oracle and
 	// the concurrent run both see sorted map iteration
 	s.MapMode = verifsim.MapSorted
@@ -360,7 +384,11 @@ $server = new Server('127.0.0.1', 0);
 		mwAttrs += fmt.Sprintf("#[Middleware(C11Mw%d::class)]\n", i)
 	}
 	for i := 0; !w.Annot && i < w.MW; i++ {
-		fmt.Fprintf(&b, "$server->middleware(function ($request, $response, $next) {\n  $t = $request->header(\"X-T\");\n  $response->header(\"X-MW%d\", $t);\n  __gate();\n  $next($request, $response);\n  $request->attribute(\"after%d\", $t);\n}, %d);\n", i, i, i)
+		hold := ""
+		if w.Flood > 0 && i == 0 {
+			hold = "  __hold($request->header(\"X-Id\"));\n"
+		}
+		fmt.Fprintf(&b, "$server->middleware(function ($request, $response, $next) {\n  $t = $request->header(\"X-T\");\n  $response->header(\"X-MW%d\", $t);\n"+hold+"  __gate();\n  $next($request, $response);\n  $request->attribute(\"after%d\", $t);\n}, %d);\n", i, i, i)
 	}
 	main := &b
 	for h, hd := range w.Handlers {
@@ -448,6 +476,9 @@ $server = new Server('127.0.0.1', 0);
 		if w.OnFormatAt == 2 {
 			main.WriteString(onFormat) // registered after the annotation routes were mounted
 		}
+	}
+	if w.Flood > 0 {
+		main.WriteString("$server->get(\"/ping\", function ($req, $res) { $res->write(\"pong\"); });\n")
 	}
 	return main.String(), files
 }
@@ -606,6 +637,14 @@ func boot(w *W, src string, errs []string) (*hx.Env, *http.ServeMux, string) {
 		}
 		return data.NewNullValue(), nil
 	}})
+	env.VM.AddFunc(&hx.GoFunc{Name: "__hold", Params: []string{"id"}, Fn: func(ctx data.Context, a []data.Value) (data.GetValue, data.Control) {
+		// request 0 of a flood run waits here until the flood client is done (a durable block inside the bubble)
+		if ch := holdCh; ch != nil && hx.ValStr(a[0]) == "0" {
+			<-ch
+			verifsim.Checkpoint()
+		}
+		return data.NewNullValue(), nil
+	}})
 	ctx, vars, ctl := env.Run(src, "/verif/c11.php")
 	if ctl != nil {
 		return nil, nil, hx.CtlStr(ctl)
@@ -634,6 +673,10 @@ func serveOne(w *W, mux *http.ServeMux, i int) obs {
 }
 
 var appSeq int
+
+// holdCh: closed by the flood client of the concurrent run; nil while the solo oracle runs (no hold there)
+var holdCh chan struct{}
+var floodServed int64
 
 func exec(t *testing.T, x any, s hx.Sched) *hx.Outcome {
 	w := x.(*W)
@@ -763,9 +806,28 @@ func exec(t *testing.T, x any, s hx.Sched) *hx.Outcome {
 				conc[i] = serveOne(w, mux, i)
 			})
 		}
+		if w.Flood > 0 {
+			holdCh = make(chan struct{})
+			ch := holdCh
+			sim.Spawn("flood", func() {
+				for k := 0; k < w.Flood; k++ {
+					c := hx.NewSimConn()
+					hx.Serve(mux, c, hx.NewRequest("GET", "/ping", nil, nil, map[string]string{"X-T": "ping", "X-Id": "-1"}))
+					if c.Body.String() == "pong" {
+						floodServed++
+					}
+				}
+				close(ch)
+			})
+		}
 	})
+	holdCh = nil
 	data.ResetOutputWriter()
 	o.Res = res
+	if w.Flood > 0 {
+		o.Fault("requests_served_while_one_request_was_held", floodServed)
+		floodServed = 0
+	}
 	if setupErr != "" {
 		o.Violate("C11/harness-setup", "server script failed: "+setupErr)
 		return o
